@@ -268,8 +268,14 @@ def bounded_seq(which):
             rng.shuffle(nms)
             nms = [tuple(int(v) for v in p) for p in nms]
         if which == 'zernike_nm_seq':
-            seq = get('prysm.polynomials.zernike.zernike_nm_seq')(nms, r, t)
-            one = [get('prysm.polynomials.zernike.zernike_nm')(n, m, r, t) for n, m in nms]
+            norm = bool(rng.random() < 0.5)
+            if rng.random() < 0.3:
+                # both azimuthal partners of one radial polynomial, back to back
+                n0 = int(rng.integers(1, 7))
+                m0 = int(rng.choice(range(n0 % 2 or 2, n0 + 1, 2)))
+                nms = [(n0, m0), (n0, -m0)] + nms[:2]
+            seq = get('prysm.polynomials.zernike.zernike_nm_seq')(nms, r, t, norm=norm)
+            one = [get('prysm.polynomials.zernike.zernike_nm')(n, m, r, t, norm=norm) for n, m in nms]
         elif which == 'zernike_nm_der_seq':
             seq = get('prysm.polynomials.zernike.zernike_nm_der_seq')(nms, r, t)
             one = [np.asarray(get('prysm.polynomials.zernike.zernike_nm_der')(n, m, r, t)) for n, m in nms]
